@@ -403,6 +403,34 @@ func (c *Ctx) checkGuardedBy(rule string, entries []*ssa.Function, table []guard
 			c.undecided(rule, c.fname(entry), entry.Pos(), "path enumeration exceeded its budget")
 			continue
 		}
+		// lock balance: no path of an entry point returns while still holding one of the guarding mutexes
+		// (every later operation on the object would block forever)
+		{
+			touches, balanced := false, true
+			for _, t := range traces {
+				for _, e := range t.Events {
+					for _, g := range table {
+						if lockOpOnField(e, g.Mutex) {
+							touches = true
+						}
+					}
+				}
+				if t.End != EndReturn || !balanced {
+					continue
+				}
+				for _, h := range t.heldLocks(len(t.Events)) {
+					for _, g := range table {
+						if _, is := lockIsField(h, g.Mutex); is && balanced {
+							balanced = false
+							c.violated(rule, c.fname(entry)+" lock balance", entry.Pos(), "a path returns while still holding "+g.Mutex.Name()+": every later operation that needs the mutex blocks forever", c.witness(t, len(t.Events)-1)...)
+						}
+					}
+				}
+			}
+			if touches && balanced {
+				c.holds(rule, c.fname(entry)+" lock balance", entry.Pos(), "every returning path has released the mutex")
+			}
+		}
 		for _, t := range traces {
 			for _, g := range table {
 				for _, a := range c.accessesOf(t, g.Field) {
@@ -496,4 +524,39 @@ func loadedFrom(t *Trace, v *Sym, f *types.Var, lo, hi int) bool {
 		}
 	}
 	return false
+}
+
+// constSliceLen: number of elements of a slice expression over a local array (buf[:], buf[:2], buf[1:3]); -1 if unknown.
+func constSliceLen(a *Sym) int64 {
+	if a == nil || a.Kind != KOp || a.Name != "slice" || len(a.Args) < 3 {
+		return -1
+	}
+	r := a.Args[0].root()
+	if r == nil || r.Kind != KAlloc || r.Typ == nil {
+		return -1
+	}
+	p, ok := r.Typ.(*types.Pointer)
+	if !ok {
+		return -1
+	}
+	arr, ok := p.Elem().Underlying().(*types.Array)
+	if !ok {
+		return -1
+	}
+	lo, hi := int64(0), arr.Len()
+	if a.Args[1].Name != "none" {
+		v, isC := a.Args[1].intConst()
+		if !isC {
+			return -1
+		}
+		lo = v
+	}
+	if a.Args[2].Name != "none" {
+		v, isC := a.Args[2].intConst()
+		if !isC {
+			return -1
+		}
+		hi = v
+	}
+	return hi - lo
 }
